@@ -4,9 +4,10 @@ on every run by tools/translate/fp2ref.py) are, for EVERY operation record `O : 
 generic GF(p²) theorems of C07 are about (definitional: the hand models were written as the same call sequences).
 -/
 import SqiGen.Fp2Ref
+import Mathlib.Tactic.Ring
 
 namespace SqiProofs.Fp2RefGen
-open SqiModel.Gf
+open SqiModel.Gf SqiModel.FpRefSem
 variable {α : Type} (O : FpOps α)
 
 theorem fp2_set_small_eq (x : Fp2 α) (v : Nat) : SqiGen.Fp2Ref.fp2_set_small O x v = fp2_set_small O v := rfl
@@ -26,5 +27,18 @@ theorem fp2_mul_eq (x y z : Fp2 α) : SqiGen.Fp2Ref.fp2_mul O x y z = fp2_mul O 
 theorem fp2_sqr_eq (x y : Fp2 α) : SqiGen.Fp2Ref.fp2_sqr O x y = fp2_sqr O y := rfl
 theorem fp2_inv_eq (x : Fp2 α) : SqiGen.Fp2Ref.fp2_inv O x = fp2_inv O x := rfl
 theorem fp2_is_square_eq (x : Fp2 α) : SqiGen.Fp2Ref.fp2_is_square O x = fp2_is_square O x := rfl
+
+/-- `-((uint32_t)buf[0] & 1)` on the first byte of the encoding = `oddMask` of the encoded integer -/
+theorem odd_byte (E : Nat) : negw 32 (u32 (E % 256) &&& 1) = oddMask E := by
+  unfold oddMask
+  rw [Nat.and_one_is_mod]
+  have e : u32 (E % 256) % 2 = E % 2 := by unfold u32; omega
+  rw [e]
+  rcases (by omega : E % 2 = 0 ∨ E % 2 = 1) with h | h <;> rw [h] <;> simp [negw, T32]
+
+/-- `fp2_sqrt` (complex square root with all its masks and the sign normalisation through `fp_encode`) -/
+theorem fp2_sqrt_eq (x : Fp2 α) : SqiGen.Fp2Ref.fp2_sqrt O x = fp2_sqrt O x := by
+  unfold SqiGen.Fp2Ref.fp2_sqrt fp2_sqrt
+  simp only [odd_byte]
 
 end SqiProofs.Fp2RefGen
